@@ -66,7 +66,18 @@ def _mat(eng, a):
     if c is None:
         c = eng.ghost[key] = z3.Const(fresh_name(a.name + "_v"), a.arr.sort())
         i = z3.Int(fresh_name("mi"))
-        eng.assume(z3.ForAll([i], z3.Select(c, i) == z3.simplify(z3.Select(a.arr, i)), patterns=[z3.Select(c, i)]))
+        body = z3.simplify(z3.Select(a.arr, i))
+        pats, todo = [z3.Select(c, i)], [body]
+        while todo:  # a cell that reads other arrays AT i (a gather x[order[i]]) is also found from those reads (order[i])
+            t = todo.pop()
+            if z3.is_select(t) and t.arg(1).eq(i) and z3.is_const(t.arg(0)):
+                pats.append(t)
+            elif z3.is_app(t):
+                todo.extend(t.children())
+        try:
+            eng.assume(z3.ForAll([i], z3.Select(c, i) == body, patterns=pats))
+        except z3.Z3Exception:
+            eng.assume(z3.ForAll([i], z3.Select(c, i) == body, patterns=pats[:1]))
     return SArr(c, a.n, a.kind, name=a.name, dtype=a.dtype)
 
 
